@@ -392,9 +392,12 @@ def main_check(modname, tier, seed_value, replay_path=None, nshards=None, n_over
             if nshards == 1:
                 results = [_worker(jobs[0])]
             else:
+                # an executor, not multiprocessing.Pool: when a worker process dies (killed by the kernel for its memory use, a crash of
+                # the interpreter) Pool.map waits for ever; here the loss surfaces as BrokenProcessPool = HARNESS-ERROR
+                import concurrent.futures
                 mpctx = multiprocessing.get_context('fork')
-                with mpctx.Pool(nshards) as pool:
-                    results = pool.map(_worker, jobs, chunksize=1)
+                with concurrent.futures.ProcessPoolExecutor(max_workers=nshards, mp_context=mpctx) as pool:
+                    results = list(pool.map(_worker, jobs, chunksize=1))
             errs = [r[1] for r in results if r[0] == 'err']
             if errs:
                 print('HARNESS-ERROR property=%s' % pid)
